@@ -161,6 +161,29 @@ def holds_at(S, spec, y1, p):
     return True
 
 
+def failure_sig(S, spec, y1, p):
+    """Identifies how the C02 conditions fail at order p: hash of the non-zero residuals (used by C01 to tell a listed finding from a new one)."""
+    import hashlib
+    twop = int(2 * p)
+    y1a = C.detach_arr(y1)
+    parts = []
+    for i in range(S.d):
+        diff = y1a[spec.b, i] - S.base_y[spec.b, i]
+        for k in range(1, twop + 1):
+            truth = spec.exact_term(k, i)
+            r = None if truth is None else diff.coeff('eps', k) - truth
+            if r is None or not r.is_zero():
+                parts.append((i, k, 'inexpressible' if r is None else repr(r.key())))
+        k = twop + 1
+        try:
+            r = C.scheme_mean(S, spec, diff.coeff('eps', k)) - spec.mean_term(k, i)
+            if not r.is_zero():
+                parts.append((i, 'mean', repr(r.key())))
+        except NotImplementedError:
+            parts.append((i, 'mean', 'not-implemented'))
+    return hashlib.md5(repr(parts).encode()).hexdigest()[:10]
+
+
 def dim2_configs():
     out = []
     for (method, st, noise, opts) in configs():
